@@ -5,7 +5,7 @@
 
 package parser
 
-//@ props C01
+//@ props C01 C10
 
 //@ wf elems
 //@ default opaque
@@ -24,8 +24,12 @@ package parser
 //@   skip goyacc driver loop and tables: trusted generator output
 //@ func (*yyParserImpl).Lookahead
 //@   skip goyacc driver
+// A parse works on the lexer it is given: the nested parse of a command
+// substitution does not touch the error slot of the lexer that started it
+// (they share only the source reader).  Assumed of the driver, not proved.
 //@ func yyParse
 //@   skip goyacc driver
+//@   assumes only-its-own-error-slot: forall p: p != yylex.(*lexer) ==> heapfield("parser.lexer.err")[p] == old(heapfield("parser.lexer.err"))[p]
 //@ func yyNewParser
 //@   skip goyacc driver
 //@ func yylex1
@@ -56,6 +60,12 @@ package parser
 
 // Error is called by the generated parser after at least one Lex, which has
 // stored a position; that is a fact about the driver, not about this code.
+//@ every (*lexer).*
+//@   ensures[C10] keeps-read-error: old(l.err) != nil && !(old(l.err) is Error) ==> l.err == old(l.err)
+
+//@ func (*lexer).error
+//@   ensures[C10] error-recorded: l.err != nil
+
 //@ func (*lexer).Error
 //@   waive assert "l.last.Load().(ast.Pos)" the value was stored by Lex or scanCmdSubst; that Error is only called after a Store is a property of the goyacc driver
 
@@ -99,6 +109,7 @@ package parser
 // The state functions that start by emitting the token they were chosen for.
 //@ func (*lexer).lexToken
 //@   requires tok == WORD || tok == IO_NUMBER || tok <= 0 || tokready(l)
+//@   requires tok == '\n' ==> len(l.word) == 0
 //@ func (*lexer).lexCmd
 //@   requires tok == WORD ==> len(l.word) >= 1
 //@   requires tok == IO_NUMBER ==> len(l.word) == 1 && l.word[0] is *ast.Lit
@@ -140,7 +151,7 @@ package parser
 //@   requires tokready(l)
 
 //@ func (*lexer).tr
-//@   ensures result != tok ==> len(l.word) == 1 && l.word[0] is *ast.Lit
+//@   ensures result != tok ==> len(l.word) == 1 && l.word[0] is *ast.Lit && result > 255
 //@   preserves *
 
 //@ func (*lexer).isAssign
@@ -159,7 +170,17 @@ package parser
 //@   requires len(l.word) == 0
 //@   loop "for h := l.heredoc.pop(); h != nil; h = l.heredoc.pop()" invariant len(l.word) == 0
 
+// ---- the error slot (C10) ----
+//
+// read records the first error of the source that is not io.EOF; nothing the
+// lexer or a grammar action does replaces a recorded read error (keeps-read-
+// error, stated for every method below), and ParseCommands returns the slot.
+// The two goroutines' accesses to the slot are serialised by l.mu; the
+// contracts describe each critical section, not the interleaving.
 //@ func (*lexer).read
+//@   ensures[C10] read-error-recorded: result1 != nil && result1 != io.EOF ==> l.err != nil
+//@   ensures[C10] first-error-kept: old(l.err) != nil ==> l.err == old(l.err)
+//@   ensures[C10] slot-holds-the-read-error: old(l.err) == nil && l.err != nil ==> l.err == result1
 //@   loop "for i := len(l.aliases) - 1; i >= 0; i--" invariant i < len(l.aliases)
 
 //@ func (*lexer).lexHeredoc$1
@@ -169,6 +190,7 @@ package parser
 // grammar then guarantees one command that is a subshell or an arithmetic
 // evaluation; this is a property of the LALR automaton, not of this function.
 //@ func (*lexer).scanCmdSubst
+//@   assert[C10] at call sync.(*Mutex).Unlock: nested-error-recorded: l.err != nil && (!(ll.err is Error) && old(l.err) == nil ==> l.err == ll.err)
 //@   waive bounds "ll.cmds[0]" needs the grammar-level fact that an accepted substitution yields exactly one command
 //@   waive assert "ll.cmds[0].(*ast.Cmd)" needs the grammar-level fact that an accepted substitution yields a *ast.Cmd
 
@@ -178,6 +200,10 @@ package parser
 
 //@ func extract
 //@   requires cmd != nil
+
+// What ParseCommands reports is the error slot of its lexer.
+//@ func ParseCommands
+//@   ensures[C10] returns-error-slot: err == nil ==> result2 == l.err
 
 //@ func open
 //@   ensures err == nil ==> r != nil
@@ -207,11 +233,12 @@ package parser
 //@   requires yylex is *lexer && yylex.(*lexer) != nil
 //@   requires yypt >= $K && yypt + 1 <= len(yyS)
 //@   requires yyVAL == $1
+//@   ensures[C10] keeps-read-error: old(yylex.(*lexer).err) != nil && !(old(yylex.(*lexer).err) is Error) ==> yylex.(*lexer).err == old(yylex.(*lexer).err)
 
 // A function body is built before its name is known: the FuncDef node of a
 // func_body value has no Name yet; func_def completes it in the same reduction
 // sequence, before the node becomes reachable from a command.
 //@ action func_body: compound_cmd
-//@   waive wf "ast.FuncDef holds" Name is filled in by the func_def action, which is checked to establish the invariant
+//@   waive wf "ast.FuncDef established" Name is filled in by the func_def action, which is checked to establish the invariant
 //@ action func_body: compound_cmd redir_list
-//@   waive wf "ast.FuncDef holds" Name is filled in by the func_def action, which is checked to establish the invariant
+//@   waive wf "ast.FuncDef established" Name is filled in by the func_def action, which is checked to establish the invariant
